@@ -13,7 +13,7 @@
    wait / because `connected` is False, commit fee3be8); `pinned` is the source before those
    two commits.  `mreach v (init P C) c`: c is reachable by single-access steps; every run of
    either granularity ends in such a state (C19_runs_are_reachable). *)
-From VT Require Import Base.PyVal Simple.SimpleClient Simple.SimpleProofs.
+From VT Require Import Base.PyVal Simple.SimpleClient Simple.SimpleProofs Simple.SimpleTransport.
 Local Open Scope nat_scope.
 
 (* ===================================================================================== *)
@@ -194,3 +194,69 @@ Theorem C19_input_wait_after_final : forall v c, after_final c -> pc c = RIW WBl
   else quiescent v c = true.
 Proof. exact input_wait_after_final. Qed.
 Print Assumptions C19_input_wait_after_final.
+
+(* ===================================================================================== *)
+(* TRANSPORT: the simple client over the real Client.  `T` is a history of what the server / *)
+(* transport does (events, loss, failed / refused / successful reconnection attempts, CLOSE, *)
+(* DISCONNECT), `tp` the Client's reconnection parameters, `dispatch tp T` the handler        *)
+(* invocations the Client makes for it (a failed attempt triggers only `connect_error`, a     *)
+(* reserved event: no invocation), `server_sent tp T` the events the server sent.  The tie    *)
+(* runs the real SimpleClient / AsyncSimpleClient over the real Client / AsyncClient over a   *)
+(* fake engine.io transport against `dispatch` (harness/drivers/sched_simple_eio.py).          *)
+(* ===================================================================================== *)
+
+(* every transport history is dispatched to a script inside `lifecycle` *)
+Theorem C19_dispatch_lifecycle : forall tp T, lifecycle (dispatch tp T) = true.
+Proof. exact dispatch_lifecycle. Qed.
+Print Assumptions C19_dispatch_lifecycle.
+
+(* the events handed to the simple client are exactly the events the server sent, in order *)
+Theorem C19_dispatch_items : forall tp T, items (dispatch tp T) = server_sent tp T.
+Proof. exact dispatch_items. Qed.
+Print Assumptions C19_dispatch_items.
+
+(* receive() returns exactly the events the server sent, each once, in order, nothing else:
+   returned ++ buffered ++ (not yet handed over) = server_sent, after every schedule, for any
+   number of failed and successful reconnection attempts; nothing is left to hand over once the
+   Client has processed the whole history *)
+Theorem C19_transport_fifo : forall v atomic tp T C sched,
+  let c := run v atomic (tinit tp T C) sched in
+  exists rest, returned (outs (sh c)) ++ buf (sh c) ++ rest = server_sent tp T /\
+               (prods_done c = true -> rest = []).
+Proof. exact transport_fifo. Qed.
+Print Assumptions C19_transport_fifo.
+
+(* no lifecycle notification (nor anything else the server did not send) is ever received *)
+Theorem C19_transport_received_were_sent : forall v atomic tp T C sched x,
+  let c := run v atomic (tinit tp T C) sched in
+  In x (returned (outs (sh c)) ++ buf (sh c)) -> In x (server_sent tp T).
+Proof. exact transport_received_were_sent. Qed.
+Print Assumptions C19_transport_received_were_sent.
+
+(* the same for the schedules of the tie, where a producer choice is one whole transport event *)
+Theorem C19_transport_fifo_grouped : forall v atomic tp T C gs,
+  let c := grun v atomic (tinit tp T C) gs in
+  exists rest, returned (outs (sh c)) ++ buf (sh c) ++ rest = server_sent tp T /\
+               (prods_done c = true -> rest = []).
+Proof. exact transport_fifo_grouped. Qed.
+Print Assumptions C19_transport_fifo_grouped.
+
+(* DOCUMENTATION ONLY (residual of fix fee3be8, thread granularity; notes/C19.md section 9): an untimed
+   receive() can stay blocked in the connected wait with an event buffered while an outage lasts *)
+Theorem C19_held_back_during_outage_refuted :
+  exists tp T C sched,
+    let c := run repaired_all false (tinit tp T C) sched in
+    pc c = RCW WBlocked /\ cur_timeout c = false /\ buf (sh c) <> [] /\ prods_done c = true /\
+    count mid_handoff (prods c) = 0 /\ ended (sh c) = false /\ quiescent repaired_all c = true.
+Proof. exact held_back_during_outage_refuted. Qed.
+Print Assumptions C19_held_back_during_outage_refuted.
+
+(* ... and nowhere else: a receive() that cannot move while a completely handed-off event is
+   buffered is registered in the connected wait with the connected flag clear (all variants, all
+   schedules) - clause "never held back" holds except in that shape *)
+Theorem C19_held_back_except : forall v P C c, mreach v (init P C) c ->
+  recv_pc (pc c) = true -> cstep v c = None ->
+  buf (sh c) <> [] -> count mid_handoff (prods c) = 0 ->
+  pc c = RCW WBlocked /\ cev (sh c) = false.
+Proof. exact held_back_except. Qed.
+Print Assumptions C19_held_back_except.
